@@ -19,6 +19,17 @@ def extract():
     gfun = find_func(gen, "gen_coords")
     tab["gcNrewind"] = kw_default(gfun, "nrewind")
     tab["gcMaxiter"] = kw_default(gfun, "maxiter")
+    # the tree-opening threshold of NonBondEngine.add_positions: `start and self.position_trees[-1].n > 5000`
+    import ast
+    eng = src("nonbond_engine.py")
+    addp = find_func(eng, "add_positions", cls="NonBondEngine")
+    hits = [node.comparators[0].value for node in ast.walk(addp)
+            if isinstance(node, ast.Compare) and len(node.ops) == 1 and isinstance(node.ops[0], ast.Gt)
+            and isinstance(node.left, ast.Attribute) and node.left.attr == "n"
+            and isinstance(node.comparators[0], ast.Constant)]
+    if len(hits) != 1:
+        raise TranslatorError("anchor not found: `<tree>.n > <literal>` in NonBondEngine.add_positions")
+    tab["engTreeThreshold"] = hits[0]
     for key, val in tab.items():
         if isinstance(val, bool) or not isinstance(val, int) or val < 0:
             raise TranslatorError("%s is not a natural number literal: %r" % (key, val))
@@ -29,8 +40,9 @@ def emit(tab):
     lines = ["namespace PolyplyVerif.WalkTables", ""]
     docs = dict(rwNrewind="RandomWalk.__init__(nrewind=…)", rwMaxiter="RandomWalk.__init__(maxiter=…)",
                 bsMaxiter="BuildSystem.__init__(maxiter=…)", gcNrewind="gen_coords(nrewind=…)",
-                gcMaxiter="gen_coords(maxiter=…)")
-    for key in ("rwNrewind", "rwMaxiter", "bsMaxiter", "gcNrewind", "gcMaxiter"):
+                gcMaxiter="gen_coords(maxiter=…)",
+                engTreeThreshold="NonBondEngine.add_positions: a new position tree is opened above this size")
+    for key in ("rwNrewind", "rwMaxiter", "bsMaxiter", "gcNrewind", "gcMaxiter", "engTreeThreshold"):
         lines.append("/-- %s -/" % docs[key])
         lines.append("def %s : Nat := %d" % (key, tab[key]))
         lines.append("")
